@@ -202,6 +202,7 @@ def loader_tables(ctx: Ctx):
     rng = ctx.rng
     base = [','.join(map(str, r)) for r in gen.load_default_table()]
     common.use_repo()
+    TABLE_CASES = []
     for _ in range(ctx.n(60, 600)):
         n = rng.choice([1, 2, 5, 20, 64])
         lines = rng.sample(base, n)
@@ -214,6 +215,7 @@ def loader_tables(ctx: Ctx):
         elif kind == 'bad_rank':
             lines.insert(k, 'ACG,T,0.5,RANKQ')
         r = loader_table_case(lines)
+        TABLE_CASES.append((list(lines), r))
         ctx.evaluations += 1
         ctx.count('loader_table:' + kind)
         if kind != 'valid':
@@ -225,6 +227,23 @@ def loader_tables(ctx: Ctx):
         elif r[0] == 'ok':
             ctx.violation('spec_violation', f'a table with a defective line ({kind} at line {k + 1} of {n + 1}) is accepted with {len(r[1])} rows',
                           {'surface': 'loader_table', 'lines': lines, 'impl': ['ok', len(r[1])]})
+    # the same files through the model of load_codon_table_rows (the frequency column is judged by the real float(), as for single rows)
+    exprs = []
+    for lines, r in TABLE_CASES:
+        rows = []
+        for x in lines:
+            f = x.split(',') if x != '' else []
+            rows.append(f'({coq_list(coq_str(y) for y in f)}, {coq_bool(freq_ok(f[2]) if len(f) >= 3 else False)})')
+        impl = 'None' if r[0] != 'ok' else '(Some ' + coq_list(f'mkRow {coq_dna(c)} {coq_str(a)} {coq_z(k)}' for c, a, k in r[1]) + ')'
+        exprs.append(f'load_agrees (load_table {coq_list(rows)}) {impl}')
+    bad, err = coq_eval(IMPORTS, exprs, chunk=20)
+    ctx.corr['cases'] += len(exprs)
+    if err:
+        ctx.violation('correspondence', 'model evaluation failed: ' + err[:300], broken='coqc cases (C17 tables)', no_input=True)
+    for i in bad[:10]:
+        ctx.corr['disagreements'] += 1
+        ctx.violation('correspondence', f'load_codon_table_rows differs from the model on a file of {len(TABLE_CASES[i][0])} lines',
+                      {'surface': 'loader_table', 'lines': TABLE_CASES[i][0], 'impl': [TABLE_CASES[i][1][0]]}, broken='correspondence S-api load_codon_table_rows (whole files)')
 
 
 def valid_row_spec(fields) -> bool:
